@@ -15,7 +15,9 @@ RULE = ('Zone objects of every kind the library produces: tzutc, tzoffset (incl.
         'is probed at {-7200, -3600, -1800, -1, 0, 1, 1799, 3599, 3600, 3601, 7199, 7200, 10800, +-86400} s plus random '
         'instants.  Per instant u: l = u.astimezone(Z) must satisfy l.utcoffset() == wall(l) - u, l.astimezone(UTC) == u; no '
         'two instants may share (wall, fold); where a truth model exists (TZif reader, POSIX evaluator, constants) the offset and '
-        'abbreviation must be the model\'s at u.  Non-trivial = instant within 3 h of an offset change; distinct = (zone, '
+        'abbreviation must be the model\'s at u.  The VTIMEZONE zone\'s locked component cache is additionally driven by 2-3 tasks under the '
+        'baton scheduler (all single-preemption plans, PCT and random schedules): every answer must equal that of a freshly '
+        'parsed zone.  Non-trivial = instant within 3 h of an offset change; distinct = (zone, '
         'transition index, probe offset).')
 ASSUMPTIONS = ['truth models: vf/oracles/tzif_ref.py, vf/oracles/posix_tz_ref.py (self-tested; POSIX model also compared with glibc in C08)',
                'tzfile: truth claimed up to the last transition of the version-1 block; beyond it only self-consistency',
@@ -34,29 +36,35 @@ OFFSETS = (-86400, -7200, -3600, -1800, -1, 0, 1, 1799, 3599, 3600, 3601, 7199, 
 LO, HI = -62135596800 + 400000, 253402300799 - 400000
 
 
+FRACTIONS = ((-1, 500000), (0, 1), (-3601, 500000), (-3600, 250000), (-1801, 999999), (3599, 999999), (-7201, 500000), (1799, 500000))
+
+
 def probes(model, rng, kind):
+    """[(transition index, offset label, UTC second, microsecond)]"""
     tr = model.transitions()
     out = []
     for i, t in enumerate(tr):
         for off in OFFSETS:
-            out.append((i, off, t + off))
+            out.append((i, off, t + off, 0))
+        for off, us in FRACTIONS:
+            out.append((i, off, t + off, us))
     if tr:
         span = (tr[0] - 86400 * 30, tr[-1] + 86400 * 30)
     else:
         span = (TM.to_ts(D.datetime(1950, 1, 1)), TM.to_ts(D.datetime(2040, 1, 1)))
     for _ in range(40 if not tr else min(200, 10 + len(tr))):
-        out.append((-1, 'r', rng.randrange(span[0], span[1])))
-    return [(i, off, ts) for i, off, ts in out if LO < ts < HI]
+        out.append((-1, 'r', rng.randrange(span[0], span[1]), rng.choice([0, 0, 1, 999999, rng.randrange(10 ** 6)])))
+    return [(i, off, ts, us) for i, off, ts, us in out if LO < ts < HI]
 
 
 def check_zone(ctx, tz, label, kind, z, model, rng):
     UTC = tz.UTC
     seen = {}
     nbad = 0
-    for i, off, ts in probes(model, rng, kind):
-        u = (TM.EPOCH + D.timedelta(seconds=ts)).replace(tzinfo=UTC)
+    for i, off, ts, us in probes(model, rng, kind):
+        u = (TM.EPOCH + D.timedelta(seconds=ts, microseconds=us)).replace(tzinfo=UTC)
         ctx.ev()
-        case = {'zone': label, 'kind': kind, 'utc': ts, 'utc_iso': u.replace(tzinfo=None).isoformat(), 'transition': i, 'offset': off}
+        case = {'zone': label, 'kind': kind, 'utc': ts, 'us': us, 'utc_iso': u.replace(tzinfo=None).isoformat(), 'transition': i, 'offset': off}
         if getattr(model, 'data', None) is not None:
             case['tzif_hex'] = model.data.hex()
         try:
@@ -75,9 +83,9 @@ def check_zone(ctx, tz, label, kind, z, model, rng):
         if back != u:
             bad.append('back-conversion gives %s' % back.replace(tzinfo=None).isoformat())
         key = (wall, l.fold)
-        if key in seen and seen[key] != ts:
-            bad.append('instants %d and %d both map to wall %s fold=%d' % (seen[key], ts, wall.isoformat(), l.fold))
-        seen[key] = ts
+        if key in seen and seen[key] != (ts, us):
+            bad.append('instants %r and %r both map to wall %s fold=%d' % (seen[key], (ts, us), wall.isoformat(), l.fold))
+        seen[key] = (ts, us)
         truth = model.at(ts) if model.claimed(ts) else None
         if truth is not None:
             t = TM.norm_type(truth)
@@ -91,7 +99,7 @@ def check_zone(ctx, tz, label, kind, z, model, rng):
             if nbad <= 3:
                 ctx.violation('conversion', case, '; '.join(bad))
         if i >= 0 and isinstance(off, int) and abs(off) <= 10800:
-            ctx.distinct('%s|%d|%d' % (label, i, off))
+            ctx.distinct('%s|%d|%d|%d' % (label, i, off, us))
     ctx.count('zones_' + kind)
     ctx.count('offset_changes_probed', len(model.transitions()))
     if ctx.counters['zones_' + kind] <= 2:
@@ -115,6 +123,11 @@ def run(ctx):
             ctx.hit(k, v)
     finally:
         unhook()
+    # the iCalendar zone's component cache under controlled thread schedules (conversions must not depend on the interleaving)
+    from vf import tz_sched
+    from vf.oracles import posix_tz_ref as PZ
+    pz = PZ.PosixZone('EST', -18000, 'EDT', -14400, ('M', 3, 2, 0), 7200, ('M', 11, 1, 0), 7200)
+    tz_sched.sweep(ctx, tz, pz, ctx.rng, 120 if ctx.tier == 'quick' else 1500)
 
 
 def floors(agg, tier):
@@ -123,6 +136,8 @@ def floors(agg, tier):
                  ('zones_tzrange', 20), ('zones_tzical', 8), ('zones_tzlocal', 20), ('truth_comparisons', 50000)):
         if c.get(k, 0) < n:
             out.append('%s only %d (< %d)' % (k, c.get(k, 0), n))
+    if c.get('tzical_scheduled_runs', 0) < 300 or c.get('tzical_distinct_interleavings', 0) < 100:
+        out.append('tzical scheduled scenario: %d runs, %d distinct interleavings' % (c.get('tzical_scheduled_runs', 0), c.get('tzical_distinct_interleavings', 0)))
     if agg['evaluations'] < (80000 if tier == 'quick' else 600000):
         out.append('only %d instants' % agg['evaluations'])
     for s in ('fold-into-dst-flagged', 'dst-to-dst', 'same-offset-type-change', 'first-transition-fold'):
